@@ -23,6 +23,40 @@ CHECKS = {
              "mutations), rust_decimal residue below 1e-15 (1e-9 on figures passing round_dp(10)), and that the release "
              "harness build reflects /repo's working tree.",
         ref="DESIGN.md §3 C01, §2.2"),
+    "C02": dict(
+        technique="runtime monitor: conservation equations over observed legs/holdings + invariants asserted on H2 "
+                  "matcher-state snapshots at every processed day",
+        text="For every accepted generated ledger the monitor checks, from the input lines and the full-precision "
+             "report alone: legs of a disposal sum to the day's SELL quantity; same-day + 30-day legs carrying "
+             "acquisition date D (converted to D's units across splits) never exceed that day's BUYs; closing holding = "
+             "acquisitions - disposals rescaled by splits. At the H2 hook it asserts at every day end that no lot has "
+             "consumed+reserved+in_pool > original or a negative counter, and that the pool equals lots moved in minus "
+             "s104 legs so far. Independent of the identification model, so it stays meaningful where C01 would be in doubt.",
+        note="Strict workload classes only (no split on a trade date of the same security: that convention is not fixed "
+             "by any property). Tolerance 1e-15 + 1e-18*scale for decimal residue.",
+        ref="DESIGN.md §3 C02"),
+    "C03": dict(
+        technique="runtime monitor: per-security cost conservation over observed legs/holdings, with the adjustments "
+                  "that took effect read from the H2 pre-pass snapshot",
+        text="Per security of every accepted ledger: sum(leg allowable costs) + closing pool cost must equal "
+             "sum(q*p+fees in GBP) + the cost offsets the pre-pass actually attached (H2), and those offsets must equal "
+             "the net amounts of exactly the capital events dated while shares were held (never a fraction of an event). "
+             "Includes a foreign-currency class converted by an independent reading of the bundled HMRC XML.",
+        note="An event dated when the model holding is exactly zero after a non-terminating split ratio is left open "
+             "here (decimal residue decides; reported by C11). Strict classes only.",
+        ref="DESIGN.md §3 C03"),
+    "C05": dict(
+        technique="runtime monitor: accept/reject of the real calculate() and of the real CLI process compared with an "
+                  "independent coverage predicate; exit status/stdout/file-system observation on failing runs",
+        text="Covered ledgers and five classes of uncovered mutants (truncated history, duplicated sale rows, sale a "
+             "tick above the holding, companion sale matched to a later repurchase, oversell appearing after a "
+             "split/unsplit) are run through calculate(); the verdict must equal the model predicate 'acquired to date "
+             ">= sold to date on every date', the error must name the security and its first uncovered date, and the "
+             "real cgt-tool (plain/json/pdf, with and without --output) must exit non-zero with empty stdout and no file.",
+        note="Known open finding F3b (decimal residue after a non-terminating split ratio refuses a covered sale of the "
+             "whole holding) is matched on its exact signature only. MCP leg of the no-partial-output clause is "
+             "observed by C20's history checker.",
+        ref="DESIGN.md §3 C05, §4 F2/F3"),
 }
 
 NOT_YET = {}
